@@ -916,6 +916,13 @@ func (a *A) ruleWriters(rule string, W *types.Named, field string, allowed map[s
 	for _, fn := range a.ModFuncs {
 		for _, st := range storesToField(fn, f) {
 			n := fname(fn)
+			if _, listed := allowed[n]; !listed && fn.Parent() == nil {
+				// a method that only owners call (a stage of an owner extracted into a helper) writes on
+				// their behalf
+				if owner := a.soleOwnerCaller(fn, allowed, 0); owner != "" {
+					n = owner
+				}
+			}
 			if _, listed := allowed[n]; !listed && fn.Parent() != nil {
 				// a function literal writes on behalf of the function it is written in
 				top := fn
@@ -1538,4 +1545,42 @@ func (a *A) guardedByLateFlag(b *ssa.BasicBlock, isLate func(*ssa.Function) bool
 		}
 	}
 	return false
+}
+
+// soleOwnerCaller: when every call of fn in the module comes (possibly through further such helpers)
+// from functions listed in allowed, the name of one of them; "" otherwise.
+func (a *A) soleOwnerCaller(fn *ssa.Function, allowed map[string]string, depth int) string {
+	if depth > 3 {
+		return ""
+	}
+	node := a.CG().Nodes[fn]
+	if node == nil || len(node.In) == 0 {
+		return ""
+	}
+	owner := ""
+	for _, e := range node.In {
+		if e.Caller == nil || e.Caller.Func == nil {
+			return ""
+		}
+		if _, isGo := e.Site.(*ssa.Go); isGo {
+			return ""
+		}
+		top := e.Caller.Func
+		for top.Parent() != nil {
+			top = top.Parent()
+		}
+		if top == fn {
+			continue // recursion
+		}
+		if _, ok := allowed[fname(top)]; ok {
+			owner = fname(top)
+			continue
+		}
+		if o := a.soleOwnerCaller(top, allowed, depth+1); o != "" {
+			owner = o
+			continue
+		}
+		return ""
+	}
+	return owner
 }
